@@ -679,8 +679,10 @@ def ensemble_sift(X, nensembles=4, ensemble_noise=.2, noise_mode='single',
 
     p = mp.Pool(processes=nprocesses)
 
-    noise = None
-    args = [(X, noise_scaling, noise, noise_mode, sift_thresh, max_imfs, ii, imf_opts, envelope_opts, extrema_opts)
+    # Draw the noise for every ensemble here - worker processes are forked with identical
+    # copies of the random state and would otherwise all add the same noise realisation
+    args = [(X, noise_scaling, np.random.randn(*X.shape), noise_mode, sift_thresh, max_imfs, ii,
+             imf_opts, envelope_opts, extrema_opts)
             for ii in range(nensembles)]
 
     res = p.starmap(_sift_with_noise, args)
